@@ -458,11 +458,121 @@ def r_collision(c):
             "equal-results table")
 
 
+def _strip_cast(n):
+    while isinstance(n, ast.Call) and isinstance(n.func, ast.Name) \
+            and n.func.id == "cast" and len(n.args) == 2:
+        n = n.args[1]
+    return n
+
+
+def r_clone(c):
+    """clone_for_callee hands every setting to the parameter of the same name"""
+    m = c.model
+    n_sites = 0
+    for qn, ci in sorted(m.classes.items()):
+        if "clone_for_callee" not in ci.methods or MAPPER not in m.mro(qn):
+            continue
+        fd = ci.methods["clone_for_callee"]
+        local = {}
+        for st in ast.walk(fd):
+            if isinstance(st, ast.Assign) and isinstance(st.targets[0], ast.Name):
+                local[st.targets[0].id] = _strip_cast(st.value)
+        for call in ast.walk(fd):
+            if not (isinstance(call, ast.Call) and isinstance(call.func, ast.Call)
+                    and ast.unparse(call.func) == "type(self)"):
+                continue
+            init = m.resolve_method(qn, "__init__")
+            iparams = [a.arg for a in init[1].args.args][1:] if init else []
+            pairs = [(k.arg, k.value) for k in call.keywords if k.arg]
+            pairs += [(iparams[i], a) for i, a in enumerate(call.args)
+                      if i < len(iparams)]
+            for kw, v in pairs:
+                v = _strip_cast(v)
+                if isinstance(v, ast.Name) and v.id in local:
+                    v = local[v.id]
+                if not isinstance(v, ast.Attribute):
+                    continue
+                n_sites += 1
+                ok = v.attr.lstrip("_") == kw.lstrip("_")
+                c.check(ok, "R13-CLONE", f"{short(qn)}.clone_for_callee", kw,
+                        m.loc(ci.module, call),
+                        f"parameter {kw!r} of the mapper cloned for a function body "
+                        f"receives {ast.unparse(v)!r}: settings are swapped or lost "
+                        "inside function bodies")
+    if n_sites < 12:
+        raise AnalysisError(f"only {n_sites} clone_for_callee arguments found")
+
+
+# (kind, path) pairs where comparing a maybe-array component with a plain `==`
+# (un-memoised Array.__eq__) is accepted: reviewed, one reason each
+EQ_RAW_REVIEWED = {
+    ("Placeholder", "shape"): "shape of an input is an expression over size "
+        "parameters only (normalize_shape enforces it): its depth is bounded by "
+        "the size expression, not by the DAG",
+    ("DistributedRecv", "shape"): "same as Placeholder.shape",
+    ("Reshape", "newshape"): "reshape() only admits integer target shapes",
+    ("CSRMatmul", "matrix.shape"): "sparse-matrix shape: size-parameter "
+        "expression, same as Placeholder.shape",
+}
+
+
+def r_eq_memo(c):
+    """array-valued components are compared through the memoised self.rec"""
+    m = c.model
+    flow = Flow(m, EQ, max_depth=8)
+    for k in concrete_kinds(m):
+        mm = handler_name(m, EQ, k, mro_fallback=False)
+        if mm is None:
+            continue
+        s = flow.handler(mm, [k, k], roots=("expr1", "expr2"))
+        ch = child_paths(m, k)
+        rec_paths = strip_markers(s.rec_paths("expr1")) | strip_markers(s.rec_paths("expr2"))
+        for path, ckind in sorted(ch.items()):
+            # is this path compared by a raw == / != on the path itself?
+            raw = None
+            for (node, lv, rvs) in s.compares:
+                if not isinstance(node.ops[0], (ast.Eq, ast.NotEq)):
+                    continue
+                sides = strip_markers(paths_of(lv)) | set().union(
+                    *[strip_markers(paths_of(r)) for r in rvs])
+                if path in sides:
+                    # key-set comparison of a mapping field: frozenset(x.keys()) == ...
+                    lft = node.left
+                    if isinstance(lft, ast.Call) and isinstance(lft.func, ast.Name) \
+                            and lft.func.id in ("frozenset", "set") and "Mapping" in \
+                            ast.unparse(m.fields(k)[path[0]][0]):
+                        continue
+                    # guarded element-wise fallback  `a == b` under isinstance test
+                    par = getattr(node, "_parent", None)
+                    if isinstance(par, ast.IfExp) and "isinstance" in ast.unparse(par.test):
+                        continue
+                    raw = node
+            inst = f"{short(k)}.{'.'.join(path)}"
+            if raw is None:
+                if covers(path, rec_paths):
+                    c.ok("R13-EQ-MEMO", f"EqualityComparer.{mm}", inst, s.where[2])
+                continue
+            why = EQ_RAW_REVIEWED.get((short(k), ".".join(path)))
+            if why:
+                c.exempt("R13-EQ-MEMO", f"EqualityComparer.{mm}", inst,
+                         m.loc(m.module_of(raw), raw), why)
+            else:
+                c.violation(
+                    "R13-EQ-MEMO", f"EqualityComparer.{mm}", inst,
+                    m.loc(m.module_of(raw), raw),
+                    f"{'.'.join(path)} ({ckind} edge) is compared with a plain "
+                    f"`{m.frag(raw, 60)}`: Array.__eq__ starts a fresh, un-memoised "
+                    "comparer per component, so DAGs reconverging through this edge "
+                    "are compared once per path (exponential)")
+
+
 SPEC = Spec(
     prop="C13",
-    rules=[r_children, r_children_overrides, r_once, r_key, r_collision],
+    rules=[r_children, r_children_overrides, r_once, r_key, r_collision, r_clone,
+           r_eq_memo],
     floors={"R13-CHILDREN": 250, "R13-ONCE": 14, "R13-KEY": 20,
-            "R13-COLLISION": 8, "R13-DOUBLE-CACHE": 8, "R13-CHILDREN-OVR": 20},
+            "R13-COLLISION": 8, "R13-DOUBLE-CACHE": 8, "R13-CHILDREN-OVR": 20,
+            "R13-CLONE": 12, "R13-EQ-MEMO": 25},
     explanation=(
         "R13-CHILDREN enumerates (traversal family, node kind, child edge): for "
         "each of the 9 hand-written traversal families and every concrete node "
@@ -480,7 +590,11 @@ SPEC = Spec(
         "every cache-key function depends on every parameter; cached walkers "
         "that reach function definitions define that key. R13-COLLISION: "
         "collisions raise, are only caught to be re-raised, and the transform "
-        "cache returns the first-seen equal result."),
+        "cache returns the first-seen equal result. R13-CLONE: clone_for_callee "
+        "passes every setting to the constructor parameter of the same name. "
+        "R13-EQ-MEMO: EqualityComparer compares every array-carrying component "
+        "through the memoised self.rec (raw == on such a component only for the "
+        "reviewed size-parameter-only shapes)."),
     not_decided=(
         "Visit counts and object identity on concrete exponential-path graphs "
         "(they follow from R13-ONCE but are not measured); 'never creates more "
